@@ -15,6 +15,12 @@ func judgeC10(hst Hist) *h.Verdict {
 	w := NewWorld(hst)
 	var burner *World
 	for step, op := range hst.Ops {
+		if op.K == "jump" {
+			// very many records later: the global counter stands at op.Amt (reachable only by that many creates)
+			verifapi.SetLocalRecordSeq(uint64(op.Amt))
+			v.Label("counter-jump")
+			continue
+		}
 		if op.K == "burn" {
 			// other consumers create and release sessions in between: the global counter advances
 			if burner == nil {
@@ -88,7 +94,25 @@ func judgeC10(hst Hist) *h.Verdict {
 	return v
 }
 
+// genWrap: sessions opened at small counter values stay open while the counter passes a width boundary.
+func genWrap(t *rapid.T) Hist {
+	hst := Hist{Base: true, Seq: uint64(rapid.IntRange(0, 2).Draw(t, "seq0"))}
+	hst.Subs = []Sub{{Acct: [3]Acct{{1, 100000}, {1, 100000}, {1, 100000}}, Suffix: "1"}}
+	name := rapid.SampledFrom([]string{"s", "", "s1"}).Draw(t, "name")
+	mk := func() Op { return Op{K: "create", S: 0, Name: name, UUs: []UU{{RG: 1, Req: 10}}} }
+	hst.Ops = append(hst.Ops, mk(), mk())
+	w := rapid.SampledFrom([]uint{16, 31, 32, 63}).Draw(t, "width")
+	hst.Ops = append(hst.Ops, Op{K: "jump", Amt: int64(uint64(1)<<w - uint64(rapid.IntRange(1, 2).Draw(t, "before")))})
+	for i := 0; i < 4; i++ {
+		hst.Ops = append(hst.Ops, mk())
+	}
+	return hst
+}
+
 func genC10(t *rapid.T) Hist {
+	if rapid.IntRange(0, 7).Draw(t, "wrap") == 0 {
+		return genWrap(t)
+	}
 	var hst Hist
 	hst.Seq = rapid.SampledFrom([]uint64{0, 8, 9, 10, 98, 99, 109, 110, 1, 11, 12}).Draw(t, "seq")
 	suffixes := rapid.Permutation([]string{"1", "11", "12", "111", "2"}).Draw(t, "suffixes")
@@ -101,8 +125,8 @@ func genC10(t *rapid.T) Hist {
 	liveCount := make([]int, ns)
 	for i := 0; i < n; i++ {
 		s := rapid.IntRange(0, ns-1).Draw(t, "sub")
-		k := rapid.SampledFrom([]string{"create", "create", "create", "update", "update", "release", "burn"}).Draw(t, "kind")
-		if liveCount[s] == 0 && k != "burn" {
+		k := rapid.SampledFrom([]string{"create", "create", "create", "update", "update", "release", "burn", "jump"}).Draw(t, "kind")
+		if liveCount[s] == 0 && k != "burn" && k != "jump" {
 			k = "create"
 		}
 		if k == "create" && liveCount[s] >= 4 {
@@ -110,6 +134,8 @@ func genC10(t *rapid.T) Hist {
 		}
 		op := Op{K: k, S: s}
 		switch k {
+		case "jump":
+			op.Amt = rapid.SampledFrom([]int64{1<<32 - 2, 1<<32 - 1, 1 << 32, 1<<31 - 1, 1 << 31, 1<<16 - 1, 1 << 16, 1<<63 - 2}).Draw(t, "jump")
 		case "burn":
 			op.Amt = int64(rapid.SampledFrom([]int{8, 9, 10, 11, 18, 19, 20, 98, 99, 100}).Draw(t, "burn"))
 		case "create":
